@@ -197,7 +197,7 @@ TMark == /\ Ev.e \in {"Quiescent", "Timeout", "Block", "CleanupDone"}
                                           !.adoptstuck = (\E p \in Payloads : pst[p] = "submitting" /\ adoptret[p] = "-"),
                                           !.execstuck = (\E x \in DOMAIN Execs : xst[x] \in {"called", "started", "finished"})]
                        [] Ev.e = "Timeout" -> [marks EXCEPT !.timeouts = @ + 1,
-                                                            \* a running payload did not answer a command within 1 s
+                                                            \* a running payload did not answer a command within 2.5 s
                                                             \* although nothing has triggered termination
                                                             !.stall = @ \/ (Ev.what = "command" /\ phase[1] = "running" /\ ~Triggered
                                                                             /\ Ev.p \in Payloads /\ pst[Ev.p] = "running"),
